@@ -2,7 +2,7 @@
    to the map of single lookups. *)
 From Coq Require Import ZArith List Bool Lia FinFun.
 From DG Require Import CaseFormat ProtoWireRef ProtoWireRefProofs ProtoMsg ProtoMsgProofs
-  ProtoGeneric ProtoGenericAlg ProtoGenericDom ProtoGenericKids ProtoGenericProofs ProtoGenericRefine ProtoGenericRefine2.
+  ProtoGeneric ProtoGenericAlg ProtoGenericDom ProtoGenericKids ProtoGenericProofs ProtoGenericRefine ProtoGenericIface ProtoGenericRefine2.
 Import ListNotations.
 Local Open Scope Z_scope.
 
@@ -538,4 +538,188 @@ Proof.
     { pose proof (wenc_len (map (pair num) (map sval (x0 :: vs')))) as H. rewrite !map_length in H. exact H. }
     destruct (fuel_split _ _ Hfu) as [f Ef]. rewrite Ef.
     apply (indexes_loop_unpacked S t (x0 :: vs') [] reqs _ 0 0 (plen reqs) _ f num Hall Hw); lia.
+Qed.
+
+(* ------------------------------------------------------------------ Node.Gets *)
+(* the key as the map iterator reads it *)
+Definition read_key (kk : Z) (k : mkey) : mkey := match k with KInt _ v => KInt kk (to_s 64 v) | KStr b => KStr b end.
+
+Lemma pair_next_entry S kk t k x pre rest fnum :
+  (kk =? 9) || kind_is_int kk = true -> 1 <= fnum <= MAX_FIELD_NUMBER ->
+  key_okb kk k = true -> wf_fld S LSingular t x = true -> wf_entry (entry_of (k, x)) = true ->
+  plen (pre ++ wenc_field (erec fnum (entry_of (k, x))) ++ rest) < 9223372036854775808 ->
+  exists vs, pair_next (pre ++ wenc_field (erec fnum (entry_of (k, x))) ++ rest) (plen pre) kk (elem_wt t) =
+             PrOk (read_key kk k) vs (plen (pre ++ wenc_field (erec fnum (entry_of (k, x))))) (plen (pre ++ wenc_field (erec fnum (entry_of (k, x))))) /\
+             slice (pre ++ wenc_field (erec fnum (entry_of (k, x))) ++ rest) vs (plen (pre ++ wenc_field (erec fnum (entry_of (k, x))))) = encode_elem x.
+Proof.
+  intros Hkk Hn Hk Hx Hwe Hlen'.
+  destruct (wf_singular_facts _ _ _ Hx) as [Hw [Hwt [Htt Ee]]].
+  set (e := entry_of (k, x)) in *.
+  unfold wf_entry in Hwe. apply andb_true_iff in Hwe as [Hwe Hl]. apply andb_true_iff in Hwe as [Hkw Hxw]. apply Z.ltb_lt in Hl.
+  pose proof (ebody_plen_pos e) as Hpos.
+  set (tg := tagb fnum 2). set (lenb := varint_enc (plen (ebody e))).
+  set (t1 := tagb 1 (wt_of_wval (kval (fst e)))). set (kb := wenc_val (kval (fst e))).
+  set (t2 := tagb 2 (wt_of_wval (snd e))). set (xb := wenc_val (snd e)).
+  set (buf := pre ++ wenc_field (erec fnum e) ++ rest) in *.
+  assert (E0 : buf = pre ++ tg ++ (lenb ++ t1 ++ kb ++ t2 ++ xb ++ rest)).
+  { unfold buf. rewrite erec_enc. unfold evalb. fold tg lenb. unfold ebody. fold t1 kb t2 xb. repeat rewrite <- app_assoc. reflexivity. }
+  assert (E1 : buf = (pre ++ tg) ++ lenb ++ (t1 ++ kb ++ t2 ++ xb ++ rest)) by (rewrite E0; repeat rewrite <- app_assoc; reflexivity).
+  assert (E2 : buf = (pre ++ tg ++ lenb) ++ t1 ++ (kb ++ t2 ++ xb ++ rest)) by (rewrite E0; repeat rewrite <- app_assoc; reflexivity).
+  assert (E3 : buf = (pre ++ tg ++ lenb ++ t1) ++ kb ++ (t2 ++ xb ++ rest)) by (rewrite E0; repeat rewrite <- app_assoc; reflexivity).
+  assert (E4 : buf = (pre ++ tg ++ lenb ++ t1 ++ kb) ++ t2 ++ (xb ++ rest)) by (rewrite E0; repeat rewrite <- app_assoc; reflexivity).
+  assert (E5 : buf = (pre ++ tg ++ lenb ++ t1 ++ kb ++ t2) ++ xb ++ rest) by (rewrite E0; repeat rewrite <- app_assoc; reflexivity).
+  assert (Hbl : plen (ebody e) <= plen buf).
+  { rewrite E0, !plen_app. unfold ebody. fold t1 kb t2 xb. rewrite !plen_app.
+    pose proof (plen_nonneg pre). pose proof (plen_nonneg tg). pose proof (plen_nonneg lenb). pose proof (plen_nonneg rest). lia. }
+  exists (plen (pre ++ tg ++ lenb ++ t1 ++ kb ++ t2)).
+  assert (Eend : plen (pre ++ tg ++ lenb ++ t1 ++ kb ++ t2) + plen xb = plen (pre ++ wenc_field (erec fnum e))).
+  { rewrite erec_enc. unfold evalb. fold tg lenb. unfold ebody. fold t1 kb t2 xb. rewrite !plen_app. lia. }
+  split.
+  - unfold pair_next.
+    assert (Hc0 : ctag buf (plen pre) = Some (fnum, 2, plen tg)).
+    { rewrite E0. unfold tg. apply ctag_enc; [exact Hn|unfold wt_ok; auto]. }
+    rewrite Hc0.
+    assert (Hal : aread_length buf (plen pre + plen tg) = Some (plen (ebody e), plen (pre ++ tg ++ lenb))).
+    { unfold aread_length. rewrite <- plen_app. rewrite E1. unfold lenb. rewrite cvar_enc by (change (2 ^ 64) with 18446744073709551616; lia).
+      rewrite to_s64_small by lia. fold lenb. rewrite !plen_app. f_equal. f_equal. lia. }
+    rewrite Hal.
+    assert (Hc1 : ctag buf (plen (pre ++ tg ++ lenb)) = Some (1, wt_of_wval (kval (fst e)), plen t1)).
+    { rewrite E2. unfold t1. apply ctag_enc; [unfold MAX_FIELD_NUMBER; lia|apply wt_of_wval_ok]. }
+    rewrite Hc1.
+    replace (plen (pre ++ tg ++ lenb) + plen t1) with (plen (pre ++ tg ++ lenb ++ t1)) by (rewrite !plen_app; lia).
+    assert (Hkey : wt_of_wval (kval (fst e)) = wt_of_kind kk /\
+                   (if kk =? 9
+                    then match aread_string buf (plen (pre ++ tg ++ lenb ++ t1)) with Some (b, r) => Some (KStr b, r) | None => None end
+                    else match aread_int buf (plen (pre ++ tg ++ lenb ++ t1)) kk with Some (x0, r) => Some (KInt kk x0, r) | None => None end)
+                   = Some (read_key kk k, plen (pre ++ tg ++ lenb ++ t1 ++ kb))).
+    { unfold e, entry_of in kb, t1 |- *. cbn [fst snd] in kb, t1 |- *. unfold kb, kval in *.
+      destruct k as [k' v|bs]; cbn [key_okb] in Hk.
+      - apply andb_true_iff in Hk as [Hk Hok]. apply andb_true_iff in Hk as [Ek Hnum]. apply Z.eqb_eq in Ek. subst k'.
+        destruct (Z.eqb_spec kk 9) as [->|_]; [cbn in Hnum; discriminate|].
+        assert (Hki : kind_is_int kk = true) by (apply orb_true_iff in Hkk; destruct Hkk as [E|E]; [discriminate E|exact E]).
+        cbn [key_field snd read_key] in *. destruct (scalar_rt kk v Hnum Hok) as [_ [_ Hwtk]]. split; [exact Hwtk|].
+        rewrite E3. rewrite aread_int_enc by assumption.
+        rewrite !plen_app. f_equal. f_equal. lia.
+      - apply andb_true_iff in Hk as [Ek Hlb]. apply Z.eqb_eq in Ek. subst kk. cbn [Z.eqb Pos.eqb]. apply Z.ltb_lt in Hlb.
+        cbn [key_field snd read_key] in *. split; [reflexivity|]. rewrite E3. rewrite aread_string_enc by exact Hlb.
+        rewrite !plen_app. f_equal. f_equal. lia. }
+    destruct Hkey as [Hkwt Hkey]. rewrite Hkwt, Z.eqb_refl. cbn [negb]. rewrite Hkey.
+    assert (Hc2 : ctag buf (plen (pre ++ tg ++ lenb ++ t1 ++ kb)) = Some (2, wt_of_wval (snd e), plen t2)).
+    { rewrite E4. unfold t2. apply ctag_enc; [unfold MAX_FIELD_NUMBER; lia|apply wt_of_wval_ok]. }
+    rewrite Hc2. unfold e at 1, entry_of at 1. cbn [snd]. rewrite Hwt, Z.eqb_refl. cbn [negb].
+    replace (plen (pre ++ tg ++ lenb ++ t1 ++ kb) + plen t2) with (plen (pre ++ tg ++ lenb ++ t1 ++ kb ++ t2)) by (rewrite !plen_app; lia).
+    assert (Hs : askip buf (plen (pre ++ tg ++ lenb ++ t1 ++ kb ++ t2)) (elem_wt t) = SkOk (plen (pre ++ tg ++ lenb ++ t1 ++ kb ++ t2) + plen xb)).
+    { rewrite E5. rewrite <- Hwt. unfold xb, e, entry_of. cbn [snd]. apply askip_val. exact Hw. }
+    rewrite Hs, Eend. reflexivity.
+  - rewrite <- Eend. rewrite E5. rewrite slice_app. unfold xb, e, entry_of. cbn [snd]. symmetry. exact Ee.
+Qed.
+
+Lemma beqb_sym a b : bytes_eqb a b = bytes_eqb b a.
+Proof.
+  destruct (bytes_eqb a b) eqn:E1; destruct (bytes_eqb b a) eqn:E2; try reflexivity.
+  - apply beqb_true in E1. subst b. rewrite bytes_eqb_refl in E2. discriminate.
+  - apply beqb_true in E2. subst b. rewrite bytes_eqb_refl in E1. discriminate.
+Qed.
+
+Lemma key_pred_ext reqs kk k : forall j,
+  req_matches reqs (fun s => key_is s (read_key kk k)) j = req_matches reqs (fun s => step_eqb (key_step k) s) j.
+Proof.
+  intros j. unfold req_matches. destruct (nth_error reqs j) as [s|]; [|reflexivity].
+  destruct k as [k' v|b]; destruct s; cbn [read_key key_is key_step step_eqb]; try reflexivity. apply beqb_sym.
+Qed.
+
+Lemma gets_loop_fill S kk t kvs : forall pre reqs acc count need fuel fnum,
+  (kk =? 9) || kind_is_int kk = true -> 1 <= fnum <= MAX_FIELD_NUMBER ->
+  Forall (fun kx => key_okb kk (fst kx) = true /\ wf_fld S LSingular t (snd kx) = true /\ wf_entry (entry_of kx) = true) kvs ->
+  plen (pre ++ wenc (map (erec fnum) (map entry_of kvs))) < 9223372036854775808 ->
+  a_gets_loop (length kvs + Datatypes.S fuel) all_fixes (pre ++ wenc (map (erec fnum) (map entry_of kvs))) kk (elem_wt t) (kind_of_type t)
+              reqs (plen pre) acc count need =
+  MOk (fill (map (map_child t) kvs) reqs acc count need).
+Proof.
+  induction kvs as [|[k x] kvs IH]; intros pre reqs acc count need fuel fnum Hkk Hn Hall Hlen.
+  - cbn [length plus a_gets_loop map fill wenc flat_map]. rewrite app_nil_r, Z.ltb_irrefl. reflexivity.
+  - assert (Hkx : key_okb kk k = true /\ wf_fld S LSingular t x = true /\ wf_entry (entry_of (k, x)) = true) by (inversion Hall; assumption).
+    assert (Hall' : Forall (fun kx => key_okb kk (fst kx) = true /\ wf_fld S LSingular t (snd kx) = true /\ wf_entry (entry_of kx) = true) kvs)
+      by (inversion Hall; assumption).
+    destruct Hkx as [Hk [Hx Hwe]]. cbn [fst snd] in Hk, Hx.
+    cbn [map] in *. rewrite wenc_cons in *.
+    destruct (pair_next_entry S kk t k x pre (wenc (map (erec fnum) (map entry_of kvs))) fnum Hkk Hn Hk Hx Hwe Hlen) as [vs [Hpn Hsl]].
+    pose proof (wenc_field_plen_pos (erec fnum (entry_of (k, x)))). pose proof (plen_nonneg (wenc (map (erec fnum) (map entry_of kvs)))).
+    cbn [length plus a_gets_loop fill].
+    destruct (Z.ltb_spec (plen pre) (plen (pre ++ wenc_field (erec fnum (entry_of (k, x))) ++ wenc (map (erec fnum) (map entry_of kvs)))));
+      [|rewrite !plen_app in *; lia]. cbn [andb].
+    destruct (count <? need); [|reflexivity].
+    change (f707 all_fixes) with true. cbn iota. rewrite Hpn, Hsl.
+    rewrite (set_first_ext _ _ _ (key_pred_ext reqs kk k)).
+    change (kid_out (map_child t (k, x))) with (kind_of_type t, encode_elem x). change (kid_step (map_child t (k, x))) with (key_step k).
+    destruct (set_first (req_matches reqs (fun s => step_eqb (key_step k) s)) (kind_of_type t, encode_elem x) 0 acc) as [acc' b].
+    rewrite app_assoc. apply IH; try assumption. rewrite <- app_assoc. exact Hlen.
+Qed.
+
+Lemma key_step_inj kk k k' : (kk =? 9) || kind_is_int kk = true -> key_okb kk k = true -> key_okb kk k' = true ->
+  key_step k = key_step k' -> mkey_eqb k k' = true.
+Proof.
+  intros Hkk Hk Hk' E. destruct k as [a v|b], k' as [a' v'|b']; cbn [key_step] in E; try discriminate; cbn [key_okb mkey_eqb] in *.
+  - apply andb_true_iff in Hk as [Hk Hok]. apply andb_true_iff in Hk as [Ek Hnum]. apply Z.eqb_eq in Ek. subst a.
+    apply andb_true_iff in Hk' as [Hk' Hok']. apply andb_true_iff in Hk' as [Ek' _]. apply Z.eqb_eq in Ek'. subst a'.
+    assert (Hki : kind_is_int kk = true).
+    { apply orb_true_iff in Hkk. destruct Hkk as [E9|Hi]; [|exact Hi]. apply Z.eqb_eq in E9. subst kk. cbn in Hnum. discriminate. }
+    inversion E as [E']. rewrite (to_s64_inj_okb kk v v' Hki Hok Hok' E'). rewrite !Z.eqb_refl. reflexivity.
+  - inversion E. subst. apply bytes_eqb_refl.
+Qed.
+
+Lemma map_kids_ok kk t kvs : (kk =? 9) || kind_is_int kk = true ->
+  Forall (fun kx : mkey * pval => key_okb kk (fst kx) = true) kvs -> nodupb mkey_eqb (map fst kvs) = true ->
+  NoDup (map kid_step (map (map_child t) kvs)) /\
+  Forall (fun k => step_eqb (kid_step k) (kid_step k) = true) (map (map_child t) kvs).
+Proof.
+  intros Hkk Hall Hnd. split.
+  - induction kvs as [|[k x] kvs IH]; [constructor|]. cbn [map fst nodupb] in *. apply andb_true_iff in Hnd as [Hx Hnd].
+    inversion Hall as [|? ? Hk Hall']; subst. cbn [fst] in Hk.
+    constructor; [|apply IH; assumption]. unfold map_child at 1. cbn [kid_step fst].
+    intros Hin. apply in_map_iff in Hin. destruct Hin as [c [Ec Hc]]. apply in_map_iff in Hc. destruct Hc as [[k' x'] [<- Hin']].
+    unfold map_child in Ec. cbn [kid_step fst] in Ec.
+    assert (Hk' : key_okb kk k' = true) by (rewrite Forall_forall in Hall'; apply (Hall' _ Hin')).
+    pose proof (key_step_inj kk k k' Hkk Hk Hk' (eq_sym Ec)) as He.
+    apply negb_true_iff in Hx. assert (existsb (mkey_eqb k) (map fst kvs) = true).
+    { apply existsb_exists. exists k'. split; [apply (in_map fst _ _ Hin')|exact He]. } congruence.
+  - apply Forall_forall. intros c Hc. apply in_map_iff in Hc. destruct Hc as [[k x] [<- _]].
+    unfold map_child. cbn [kid_step fst]. destruct k; cbn [key_step step_eqb]; [apply Z.eqb_refl|apply bytes_eqb_refl].
+Qed.
+
+Definition is_key_req (s : pstep) : bool := match s with PStrKey _ | PIntKey _ => true | _ => false end.
+
+Theorem getmany_gets_kids S kk t num kvs reqs :
+  (kk =? 9) || kind_is_int kk = true -> 1 <= num <= MAX_FIELD_NUMBER ->
+  wf_fld S (LMap kk) t (VMap kvs) = true -> plen (wenc (wfld num (VMap kvs))) < 2 ^ 63 ->
+  NoDup reqs -> (exists s r, reqs = s :: r /\ is_key_req s = true) ->
+  a_getmany all_fixes S (map_node kk t num (plen kvs) (VMap kvs)) reqs =
+  MOk (many_of_kids (spec_children S (LMap kk) t (VMap kvs)) reqs).
+Proof.
+  intros Hkk Hn Hwf Hlen Hdup [s0 [r0 [Er Hs0]]]. destruct (wf_map_facts _ _ _ _ num Hwf) as [Hne [Ew Hall]].
+  assert (Hnd : nodupb mkey_eqb (map fst kvs) = true).
+  { cbn [wf_fld] in Hwf. apply andb_true_iff in Hwf as [H _]. apply andb_true_iff in H as [_ H]. exact H. }
+  assert (Hkeys : Forall (fun kx : mkey * pval => key_okb kk (fst kx) = true) kvs)
+    by (eapply Forall_impl; [|exact Hall]; intros a Ha; cbn beta in Ha; destruct Ha as [Ha _]; exact Ha).
+  destruct (map_kids_ok kk t kvs Hkk Hkeys Hnd) as [Hk1 Hk2]. cbn [spec_children]. change (map _ kvs) with (map (map_child t) kvs).
+  rewrite <- (fill_is_map reqs _ Hdup Hk1 Hk2).
+  change (2 ^ 63) with 9223372036854775808 in Hlen.
+  assert (Hgo : a_getmany all_fixes S (map_node kk t num (plen kvs) (VMap kvs)) reqs =
+                match ctag (wenc (wfld num (VMap kvs))) 0 with
+                | Some (_, wt0, _) => if negb (wt0 =? 2) then MErr
+                                      else a_gets_loop (Datatypes.S (length (wenc (wfld num (VMap kvs))))) all_fixes (wenc (wfld num (VMap kvs))) kk (elem_wt t) (kind_of_type t) reqs 0
+                                                       (map (fun _ => None) reqs) 0 (plen reqs)
+                | None => MErr end).
+  { unfold a_getmany, map_node. cbn [an_t an_raw an_ty an_lbl]. change (T_MAP =? T_MAP) with true. cbn [negb]. rewrite Er.
+    destruct s0; try discriminate Hs0; reflexivity. }
+  rewrite Hgo. rewrite Ew in *.
+  destruct kvs as [|kx kvs']; [contradiction|].
+  assert (Hc : exists tn, ctag (wenc (map (erec num) (map entry_of (kx :: kvs')))) 0 = Some (num, 2, tn)).
+  { cbn [map]. rewrite wenc_cons, erec_enc. pose proof (ctag_enc [] num 2 (evalb (entry_of kx) ++ wenc (map (erec num) (map entry_of kvs'))) Hn) as Hc.
+    cbn [app] in Hc. change (plen (@nil Z)) with 0 in Hc. rewrite <- app_assoc. eexists. apply Hc. unfold wt_ok. auto. }
+  destruct Hc as [tn Hc]. rewrite Hc. change (2 =? 2) with true. cbn [negb].
+  assert (Hfu : (length (kx :: kvs') <= length (wenc (map (erec num) (map entry_of (kx :: kvs')))))%nat).
+  { pose proof (wenc_len (map (erec num) (map entry_of (kx :: kvs')))) as H. rewrite !map_length in H. exact H. }
+  destruct (fuel_split _ _ Hfu) as [f Ef]. rewrite Ef.
+  apply (gets_loop_fill S kk t (kx :: kvs') [] reqs _ 0 (plen reqs) f num Hkk Hn Hall). cbn [app]. exact Hlen.
 Qed.
